@@ -44,3 +44,14 @@ Example c09_example :
   resolve (txt "/..%2f..") = txt "/..%2f.." /\
   resolve (txt "") = txt "/".
 Proof. vm_compute. repeat split; reflexivity. Qed.
+
+From CRS Require Import Model.Routes Proofs.RoutesProofs.
+(** The routing table (Model/Routes.model_routes; compared with the working tree's
+    mux registrations on every run - translator/routes, per-run obligation
+    c09_tree_routes) and the file-handler model agree: a request is treated as a
+    shell endpoint's exactly when one of the shell routes matches its path
+    elements (literal elements, one non-empty {id} element, "/io/" as a subtree);
+    everything else - /robots.txt, /debug/..., /io-like names - is the file
+    handler's, or nobody's when no files are served. *)
+Theorem c09_shell_paths_are_the_shell_routes : forall segs, is_shell_segs segs = shell_route_matches segs.
+Proof. exact shell_segs_are_the_shell_routes. Qed.
